@@ -18,8 +18,8 @@ Technique
 ---------
 (numbers: ALLOWED devices 1-6 of RULES_GUIDE.md "What counts as *static* here"; nothing in this module interprets /repo
 function bodies, loops or expressions on data chosen by the checker, enumerates numeric inputs, unrolls a loop or matches
-sample strings.  No algebraic lemma is relied on: every comparison is structural equality of terms or equality of
-constants/tables.)
+sample strings.  Comparisons are structural equality of terms or equality of constants/tables; the only lemmas relied
+on are the two library facts about bytes.find() stated under R15 (L1, L2) and polynomial normal form there.)
 
 * Shared: `_Val` - device 3 (reaching definitions substituted into symbolic value terms: copies, tuple (un)packing,
   dict literals, argument binding into resolved package callees, loop variables as the symbolic `("elem", loop)`,
@@ -46,7 +46,11 @@ constants/tables.)
 * R2: 1, 3, 6 - needle located by role (data operand of the `xor()` feeding the resolved scanner call) as a value term,
   folded to a constant and compared with the serialisation of `Setting` computed from the *parsed* C definition
   (csverif.cdefs, reference-table side, not /repo code); block size = constant argument term of the `read()` on the
-  file parameter that feeds the yielded block.
+  file parameter that feeds the yielded block.  Field / enum base types are resolved through csverif.cdefs' base types
+  plus the table of typedefs dissect.cstruct predefines (`_CSTRUCT_TYPEDEFS`: `uint16_t`, `unsigned short`, `__u16`
+  ... - library model, a complete table comparison); enumerators without explicit value are numbered consecutively by
+  the parser.  A type name outside both tables, a definition the parser does not find, or `index, type, length` not
+  being the leading scalar fields -> the reference cannot be computed -> undecided.
 * R3: 1, 2, 3 - argument terms of the scanner / `xor()` / `read()` / `seek()` calls compared structurally with the
   parameter terms and the loop-element term; CFG dominance and `reaches(.., avoiding=..)` for "seek precedes the read in
   every iteration, file untouched in between" and "no path through the scan loop skips the yield or leaves the loop".
@@ -121,11 +125,44 @@ constants/tables.)
   other arguments are keyed by value and are not subjects.  (c) an attribute that a function in scope stores on a
   file-object parameter (assignment or `setattr` with a literal name) and a function in scope reads back (attribute load
   that is not a method call, `getattr`/`hasattr` with that literal) -> violated.  Nothing located -> discharged.
+* R13 (finding F26: in all-keys mode the byte statistic that orders the left-over keys is counted over the whole view -
+  the stream it reads is at its start when the counting begins, whatever the earlier phases read): 1, 2, 3.  The
+  counting read is located by role: flow-insensitive def/use closure (`_flows`/`_closure`, device 3) backwards from the
+  key argument of the recursive retry; a statement (loop header for its iterable) that mentions `<stream>.read` and
+  writes a name in that closure is a read site; the stream is the receiver local.  Per reaching definition of that
+  local and per alternative of its value term (parameter / view constructed by a resolved callee / opened stream):
+  rewinds = `seek(0)` / `seek(0, SEEK_SET)` calls whose receiver term may be that object, and its binding when it is
+  constructed at position 0 (`open`/`BytesIO`, or a package callee every return of which is dominated by
+  `<result>.seek(0)` with no later use - syntax tree + dominance); moves = every other call outside the counting loop
+  that has the object as receiver (position-neutral methods excepted) or argument.  Violated iff the CFG has a path to
+  the read site on which a move of the object (or, for a parameter, the function entry: the caller's position) is
+  followed by no rewind (`reaches(.., avoiding=rewinds + other bindings)`); branch edges whose test is decided by the
+  dominating conditions of the binding on never-rebound parameters are removed first (device 2, named assumption =
+  those conditions).  Origin of the object not followed -> undecided; no payload statistic at all (keys retried in a
+  fixed order) -> discharged.
+* R14 (all-keys mode tries *every* left-over key): 1, 3 - the key argument of the retry is followed through reaching
+  definitions and classified by syntax: make_byte_list() result through element-keeping operations (sorted / list /
+  tuple / reversed / copy / full slice / identity comprehension; in-place sort) -> discharged; a comprehension or
+  `filter()` over / against the left-over list whose iterable or test mentions a name in the forward def/use closure of
+  the stream reads (payload-derived data) -> violated (keys the statistic did not see are dropped); `[:N]` with a
+  constant N below 256 - len(default keys) (reference table) -> violated; selection by payload-independent tests,
+  concatenations, in-place removals, anything else -> undecided.
+* R15 (file order of the candidates under one key: the scanner reports the hits of one read round in ascending order):
+  1, 2, 3, 4 - yield sites inside the loop around the single `read()` on the file parameter; offset in polynomial normal
+  form (`sympoly` after substituting single-definition temporaries) = fixed terms + match index; lemma L1
+  (`find(sub, start)` returns -1 or an index >= start: a progression `i = buf.find(needle, i + k)`, k >= 1 constant,
+  is strictly increasing; `rfind(needle, lo, <bound containing i>)` progresses downwards -> violated), terms other
+  than the index not written in the search loop.  Two yield sites of one round (CFG path from one to the other avoiding
+  the read and the definition of the position variable): sign of `offset - <tell() before the read>` per site from
+  lemma L2 (`find` result tested against -1 is >= 0; reaching definitions at the yield) or from a dominating comparison
+  `A < B` with A - B equal to that difference in normal form; later site negative while earlier site non-negative ->
+  violated, the reverse -> discharged, anything else -> undecided.  Order between rounds is left to R8.
 """
 
 from __future__ import annotations
 
 import ast
+import re
 
 from csverif import cdefs as cdefs_mod
 from csverif.astutil import (
@@ -134,6 +171,7 @@ from csverif.astutil import (
 )
 from csverif.cfg import ENTRY, EXIT, RAISE
 from csverif.q import FuncView, dominating_conditions, raise_class, reaching_defs, tv_eval
+from csverif.astutil import compare_parts
 
 REF_DEFAULT_KEYS = [b"\x69", b"\x2e", b"\x00"]  # property statement: defaults 0x69, 0x2e, 0x00 in priority order
 REF_PATCH_SIZE = 4096
@@ -162,7 +200,11 @@ def run(ctx):
         "empty', chunk tests decided in the length domain); no function an extraction runs takes an answer out of a store "
         "that outlives the call (module-/class-level object written at run time, memoised function, attribute planted on the "
         "caller's file object) looked up by the file object - the same file object may hold another payload the next time "
-        "(R12: call graph, file objects located by their use of the io protocol, who-may-write). The scanner's offset algebra "
+        "(R12: call graph, file objects located by their use of the io protocol, who-may-write); in all-keys mode the byte "
+        "statistic that orders the left-over keys is counted from the start of the stream on every path (R13: rewinds / moves of "
+        "the counted stream on the CFG), every left-over key is retried (R14: the retried list is make_byte_list() up to order, no "
+        "payload-dependent selection or truncation) and the scanner reports the hits of one read round in ascending order (R15: "
+        "find() progression and sign of the offsets relative to the read position). The scanner's offset algebra "
         "obligations of C15 are imported (R8). Decides these structural necessary conditions; does not decide that "
         "decoded settings equal the embedded ones for all payloads."
     )
@@ -171,7 +213,11 @@ def run(ctx):
         "container handling (PE / XorEncoded) - see C09, C18 (here only: position algebra / rolling key / read accounting of "
         "the XorEncoded view as imported from C09 (R9) and 'no non-empty chunk is dropped' (R11); that read(n) keeps "
         "reading until n bytes are decoded or the data ends is not decided)",
-        "frequency ordering of the 254 left-over keys (only that the re-ordered list is private to the call, R10)",
+        "frequency ordering of the left-over keys: decided are that the re-ordered list is private to the call (R10), that the "
+        "statistic is counted from the start of the stream (R13) and that re-ordering drops no key (R14); that the sort key really "
+        "ranks by frequency, and that XorEncodedFile.seek(0)/read() deliver the whole decoded view, is not decided here",
+        "file order of candidates: only the order of the scanner's hits within one read round (R15); order across rounds rests on "
+        "the carry-over obligations (R8); a scanner that is not `loop { read; find-progression; yield }` is undecided",
         "search phases merged into one loop over a collection of file views are followed only when the collection is a "
         "literal list/tuple (optionally grown by append() before the loop); other collections are undecided",
         "run-time-written long-lived stores that are consulted on the extraction path under a key that is not a file object "
@@ -180,6 +226,10 @@ def run(ctx):
     ]
     rep.trusted_base = ["CPython ast", "networkx dominators", "C-definition parser (csverif.cdefs)",
                         "io model for R11: read(k) returns between 0 and k bytes, any such length at the end of the data",
+                        "R2: table of the typedefs dissect.cstruct predefines (uint16_t, unsigned short, __u16 ... -> base type)",
+                        "R13: io model - seek(0) / seek(0, SEEK_SET) puts a stream at its start; open()/BytesIO() streams start at 0; any other "
+                        "method call on, or call receiving, the stream may move it (tell/seekable/readable/fileno/flush excepted)",
+                        "R15: bytes.find(sub, start) returns -1 or an index >= start; rfind(sub, lo, hi) an index < hi",
                         "R12: the package call graph (resolved callees) plus the methods of every class constructed during extraction cover "
                         "the code an extraction runs; decorators named *cache*/*memo* memoise by argument identity/equality"]
     rep.assumptions = ["iter_find_needle reports true offsets (C15 obligations, imported as R8)"]
@@ -191,6 +241,9 @@ def run(ctx):
     r10(ctx)
     r11(ctx)
     r12(ctx)
+    r13(ctx)
+    r14(ctx)
+    r15(ctx)
     # blocks inside XorEncoded stages are found by scanning and then re-reading the decoding file view: its position
     # algebra and nonce chaining (C09.R1-R3) are necessary conditions here as well
     from rules import c09
@@ -681,6 +734,63 @@ def _receiver_is(v, call, t_want, attr) -> bool:
 
 
 # ============================================================================ R1 / R2
+# Library model (reference-table side, not /repo code): the typedefs dissect.cstruct predefines on top of the base types
+# csverif.cdefs knows (cstruct.typedefs, "Common C types" / "Windows types" / "GNU C types" / "IDA types" / "Other
+# convenience types"); name -> base type.  A type name outside both tables -> the reference is not computed (undecided).
+_CSTRUCT_TYPEDEFS = {
+    "signed char": "int8", "unsigned char": "char", "short": "int16", "signed short": "int16", "unsigned short": "uint16",
+    "int": "int32", "signed int": "int32", "unsigned int": "uint32", "long": "int32", "signed long": "int32", "unsigned long": "uint32",
+    "long long": "int64", "signed long long": "int64", "unsigned long long": "uint64",
+    "LONG32": "int32", "LONG64": "int64", "INT8": "int8", "INT16": "int16", "INT32": "int32", "INT64": "int64",
+    "UINT8": "uint8", "UINT16": "uint16", "UINT32": "uint32", "UINT64": "uint64",
+    "__int8": "int8", "__int16": "int16", "__int32": "int32", "__int64": "int64",
+    "unsigned __int8": "uint8", "unsigned __int16": "uint16", "unsigned __int32": "uint32", "unsigned __int64": "uint64",
+    "int8_t": "int8", "int16_t": "int16", "int32_t": "int32", "int64_t": "int64",
+    "uint8_t": "uint8", "uint16_t": "uint16", "uint32_t": "uint32", "uint64_t": "uint64",
+    "_BYTE": "uint8", "_WORD": "uint16", "_DWORD": "uint32", "_QWORD": "uint64",
+    "u1": "uint8", "u2": "uint16", "u4": "uint32", "u8": "uint64", "__u8": "uint8", "__u16": "uint16", "__u32": "uint32", "__u64": "uint64",
+    "ushort": "uint16", "uint": "uint32", "ulong": "uint32",
+}
+
+
+def _ctype_size(cd, t, depth=0):
+    """(size, signed) of a C type name of the parsed definitions: base types and enums as csverif.cdefs resolves them,
+    plus the typedefs dissect.cstruct predefines (also as the base type of an enum).  None: unknown type."""
+    ts = cd.type_size(t)
+    if ts is not None:
+        return ts
+    t = " ".join(t.split())
+    if t in _CSTRUCT_TYPEDEFS:
+        return cdefs_mod.BASE_TYPES.get(_CSTRUCT_TYPEDEFS[t])
+    if t in cd.enums and depth < 4:
+        return _ctype_size(cd, cd.enums[t].base, depth + 1)
+    return None
+
+
+def _header_ref(cd, setting, values):
+    """Serialisation of the leading scalar fields of `Setting` named in `values` (in the order of the parsed struct
+    definition, endianness of the cstruct instance) followed by the first (zero) byte of a big-endian short value.
+    -> (bytes, None) or (None, why) when the definition is outside the C-definition model (unknown type name, the
+    named fields are not the leading scalar fields, an enumerator that is not defined)."""
+    out, seen = b"", []
+    for fl in setting.fields:
+        if fl.name not in values:
+            break
+        ts = _ctype_size(cd, fl.type)
+        if ts is None or fl.count is not None:
+            return None, f"field `{fl.name}` has type `{fl.type}`{'[..]' if fl.count is not None else ''}, which is not a scalar type this model knows"
+        if values[fl.name] is None:
+            return None, f"the enumerator for field `{fl.name}` (SETTING_PROTOCOL / TYPE_SHORT) is not defined"
+        try:
+            out += int(values[fl.name]).to_bytes(ts[0], "big" if cd.endian == ">" else "little", signed=ts[1] and values[fl.name] < 0)
+        except OverflowError:
+            return None, f"value {values[fl.name]} does not fit field `{fl.name}`"
+        seen.append(fl.name)
+    if set(seen) != set(values):
+        return None, "struct Setting does not start with the scalar fields " + ", ".join(values) + " (found: " + ", ".join(seen) + ")"
+    return out + b"\x00", None
+
+
 def r1_r2(ctx):
     mod = ctx.repo.module("beacon")
     node = ctx.repo.const("beacon.DEFAULT_XOR_KEYS")
@@ -698,13 +808,18 @@ def r1_r2(ctx):
     if cd is None:
         ctx.rep.error("anchor vanished: cs_struct definitions in beacon.py")
         return
+    missing = [n for n in ("BeaconSetting", "SettingsType") if n not in cd.enums] + ([] if "Setting" in cd.structs else ["Setting"])
+    if missing:
+        # the C-definition parser does not find the definitions the header is made of (a syntax it does not model)
+        ctx.undecided("R2", "TABLE", f, "needle header", "definitions not found by the C-definition model: " + ", ".join(missing), f.node)
+        return
     setting = cd.struct("Setting")
     bs, stype = cd.enum("BeaconSetting"), cd.enum("SettingsType")
-    ref = cdefs_mod.serialise(cd, setting, {
-        "index": bs.by_name().get("SETTING_PROTOCOL", -1),
-        "type": stype.by_name().get("TYPE_SHORT", -1),
+    ref, ref_why = _header_ref(cd, setting, {
+        "index": bs.by_name().get("SETTING_PROTOCOL"),
+        "type": stype.by_name().get("TYPE_SHORT"),
         "length": 2,
-    }) + b"\x00"
+    })
     v = _Val(ctx, f)
     if len(v.params) < 2:
         ctx.undecided("R2", "TABLE", f, "needle header", "find_beacon_config_bytes no longer takes (file, key)", f.node)
@@ -731,6 +846,10 @@ def r1_r2(ctx):
             data_t = v._global_const(data_t[1]) or data_t
         if data_t is None or data_t[0] != "const":
             ctx.undecided("R2", "TABLE", f, "needle header", "the scan needle is not xor(<constant header>, key): " + (v.show(data_t) if data_t else v.show(nt)), sc)
+        elif ref is None:
+            # the reference side cannot be computed: the definition of Setting uses a type / layout the C-definition
+            # model does not know - nothing is claimed about the needle
+            ctx.undecided("R2", "TABLE", f, "needle header", "serialisation of Setting(SETTING_PROTOCOL, TYPE_SHORT, length=2) cannot be computed from CS_DEF: " + ref_why, sc)
         else:
             ctx.ob("R2", "TABLE", f, "needle header", data_t[2] == ref,
                    f"scan needle (before XOR) is {data_t[2]!r}; serialisation of Setting(SETTING_PROTOCOL, TYPE_SHORT, length=2)+00 "
@@ -2385,6 +2504,559 @@ def r12(ctx):
         ctx.ob("R12", "ALIAS", ctx.repo.func(FQ_FROM_FILE), text, True,
                f"none of the {len(scope)} functions an extraction runs consults a module-/class-level object that is written at run time, none that takes "
                "a file object is memoised, none reads back an attribute planted on the file object", nontrivial=False)
+
+
+# ============================================================================ R13 / R14: the all-keys retry
+_POSITION_NEUTRAL = {"tell", "seekable", "readable", "writable", "fileno", "isatty", "flush"}
+_OPENERS = {"open", "io.open", "io.BytesIO", "BytesIO", "io.BufferedReader"}
+_ORDER_ONLY = {"sorted", "list", "tuple", "reversed"}
+_DROPPERS = {"remove", "pop", "clear", "popitem", "__delitem__"}
+
+
+def _root_name(e):
+    while isinstance(e, (ast.Attribute, ast.Subscript, ast.Starred)):
+        e = e.value
+    return e.id if isinstance(e, ast.Name) else None
+
+
+def _flows(v):
+    """Flow-insensitive def/use summary of the statements of a function: [(statement, names written, names read)] for
+    assignments (the base of an item / attribute store counts as written), augmented assignments, loop targets
+    (<- iterable), with-bindings and in-place method calls (receiver <- arguments).  Names inside lambdas and
+    comprehensions count as read by the statement that contains them."""
+    def loads(e):
+        return {n.id for n in ast.walk(e) if isinstance(n, ast.Name) and isinstance(n.ctx, ast.Load)} & v.locals if e is not None else set()
+
+    out = []
+    for st in statements(v.fn):
+        if isinstance(st, (ast.Assign, ast.AnnAssign, ast.AugAssign)):
+            if getattr(st, "value", None) is None:
+                continue
+            tgts = st.targets if isinstance(st, ast.Assign) else [st.target]
+            w = set()
+            for t in tgts:
+                for x in (t.elts if isinstance(t, (ast.Tuple, ast.List)) else [t]):
+                    r = _root_name(x)
+                    if r:
+                        w.add(r)
+            rd = loads(st.value) | (w if isinstance(st, ast.AugAssign) else set())
+            out.append((st, w, rd))
+        elif isinstance(st, (ast.For, ast.AsyncFor)):
+            out.append((st, {n.id for n in ast.walk(st.target) if isinstance(n, ast.Name)}, loads(st.iter)))
+        elif isinstance(st, (ast.With, ast.AsyncWith)):
+            for it in st.items:
+                if it.optional_vars is not None:
+                    out.append((st, {n.id for n in ast.walk(it.optional_vars) if isinstance(n, ast.Name)}, loads(it.context_expr)))
+        elif isinstance(st, ast.Expr) and isinstance(st.value, ast.Call) and isinstance(st.value.func, ast.Attribute):
+            r = _root_name(st.value.func.value)
+            if r and r in v.locals:
+                out.append((st, {r}, loads(st.value)))
+    return out
+
+
+def _closure(flows, seed, backward):
+    """names that flow into `seed` (backward) / that `seed` flows into (forward): transitive closure over `flows`"""
+    rel = set(seed)
+    grown = True
+    while grown:
+        grown = False
+        for _st, w, rd in flows:
+            src_, dst = (w, rd) if backward else (rd, w)
+            if src_ & rel and not dst <= rel:
+                rel |= dst
+                grown = True
+    return rel
+
+
+def _reads_in(root, locals_):
+    """`<receiver>.read` attribute nodes under root (called directly, or handed to partial()/iter()/a lambda)"""
+    return [n for n in ast.walk(root) if isinstance(n, ast.Attribute) and n.attr == "read" and isinstance(n.ctx, ast.Load)]
+
+
+def _is_rewind(v, c, want_alt):
+    """is call c `<stream>.seek(0)` / `.seek(0, SEEK_SET)` on a receiver that may be the object `want_alt`?"""
+    if not (isinstance(c.func, ast.Attribute) and c.func.attr == "seek"):
+        return False
+    pa = list(c.args)
+    off = pa[0] if pa else next((k.value for k in c.keywords if k.arg in ("offset", "pos", "target", "cookie")), None)
+    wh = pa[1] if len(pa) > 1 else next((k.value for k in c.keywords if k.arg == "whence"), None)
+    if off is None or v.term(off, c) != _const(0):
+        return False
+    if wh is not None and v.term(wh, c) not in (_const(0), ("global", "io.SEEK_SET"), ("global", "os.SEEK_SET"), ("global", "SEEK_SET")):
+        return False
+    return want_alt in [_unwith(a) for a in _alts(v.term(c.func.value, c))]
+
+
+def _unwith(t):
+    while t[0] == "with":
+        t = t[1]
+    return t
+
+
+def _returns_rewound(ctx, g) -> bool:
+    """every return of package function g returns a local on which `.seek(0)` is the last thing done: a dominating
+    `<local>.seek(0)` statement with no other use of the local between it and the return"""
+    gv = _Val(ctx, g)
+    cfg = gv.cfg
+    rets = [r for r in cfg.return_stmts() if cfg.reachable(cfg.node(r))]
+    if not rets or cfg.falls_off_end():
+        return False
+    for r in rets:
+        x = strip_cast(r.value) if r.value is not None else None
+        if not isinstance(x, ast.Name) or x.id in gv.params:
+            return False
+        rn = cfg.node(r)
+        ok = False
+        for st in statements(g.node):
+            if not (isinstance(st, ast.Expr) and isinstance(st.value, ast.Call) and cfg.has(st)):
+                continue
+            c = st.value
+            if not (isinstance(c.func, ast.Attribute) and c.func.attr == "seek" and isinstance(c.func.value, ast.Name) and c.func.value.id == x.id
+                    and len(c.args) == 1 and not c.keywords and gv.term(c.args[0], c) == _const(0)):
+                continue
+            sn = cfg.node(st)
+            if not cfg.dominates(sn, rn):
+                continue
+            between = [u for u in statements(g.node) if u is not st and u is not r and cfg.has(u)
+                       and any(isinstance(n, ast.Name) and n.id == x.id for n in ast.walk(u) if not isinstance(u, (ast.For, ast.While, ast.If, ast.Try, ast.With)) or True)
+                       and cfg.reaches(sn, cfg.node(u), avoiding=[rn]) and cfg.reaches(cfg.node(u), rn, avoiding=[sn])]
+            if not between:
+                ok = True
+        if not ok:
+            return False
+    return True
+
+
+def _retry_context(ctx):
+    """(f, v, retries [(call, stmt, key expression)], flows) of the block iterator"""
+    f = ctx.repo.func(FQ_BLOCKS)
+    v = _Val(ctx, f)
+    retries = []
+    for call in v.calls(f.fq):
+        st = v.fv.stmt_of(call)
+        a = v.args(call)
+        if a is None or st is None or not v.cfg.has(st) or len(a) < 2:
+            continue
+        retries.append((call, st, list(a.values())[1]))
+    return f, v, retries, _flows(v)
+
+
+def r13(ctx):
+    """Key priority in all-keys mode is a function of the payload, not of how far earlier phases happened to read: the
+    statistic that orders the retried keys is computed over the whole (XorDecoded) view - the stream its counting loop
+    reads is positioned at its start on every path to that loop (absolute seek(0), a view that is constructed rewound,
+    a newly opened stream), with nothing that moves it in between."""
+    text = "statistic that orders the retried keys is computed from the start of the stream"
+    f, v, retries, flows = _retry_context(ctx)
+    cfg, fv = v.cfg, v.fv
+    if not retries:
+        ctx.undecided("R13", "CURSOR", f, text, "no recursive retry with the left-over keys located", f.node)
+        return
+
+    def loads(e):
+        return {n.id for n in ast.walk(e) if isinstance(n, ast.Name) and isinstance(n.ctx, ast.Load)} & v.locals
+
+    n_sites = 0
+    for call, rst, keys_e in retries:
+        if keys_e is None:
+            continue
+        rel = _closure(flows, loads(keys_e), backward=True)
+        rn = cfg.node(rst)
+        # read sites that feed the ordering: `<stream>.read` inside a statement (a loop header counts for its iterable)
+        # that writes one of the names flowing into the retried key list
+        sites = []
+        for st, w, _rd in flows:
+            if not (w & rel) or not cfg.has(st):
+                continue
+            own = [st.iter] if isinstance(st, (ast.For, ast.AsyncFor)) else [st]
+            for e in own:
+                for ra in _reads_in(e, v.locals):
+                    if cfg.reaches(cfg.node(st), rn) and not any(ra is x for x, _s in sites):
+                        sites.append((ra, st))
+        if not sites:
+            # no payload statistic: is the list re-ordered at all?
+            reordered = any(isinstance(n, ast.keyword) and n.arg == "key" for st, w, _rd in flows if w & rel for n in ast.walk(st))
+            if reordered:
+                ctx.undecided("R13", "CURSOR", f, text, "the retried keys are ordered by a key function, but no read of a stream that feeds the ordering was located", call)
+            else:
+                ctx.ob("R13", "CURSOR", f, text, True, "the left-over keys are retried in an order that does not depend on the payload: no statistic", call, nontrivial=False)
+            continue
+        for ra, st in sites:
+            n_sites += 1
+            loop = st if isinstance(st, (ast.For, ast.AsyncFor, ast.While)) else fv.enclosing(st, (ast.For, ast.AsyncFor, ast.While))
+            site = cfg.node(st)
+            inside = {id(x) for x in ast.walk(loop)} if loop is not None else {id(st)}
+            recv = strip_cast(ra.value)
+            if not isinstance(recv, ast.Name) or recv.id not in v.locals:
+                ctx.undecided("R13", "CURSOR", f, text, f"the stream that is counted is `{src(recv)[:40]}`, not a local: its position is not followed", ra)
+                continue
+            name = recv.id
+            at = loop if loop is not None and any(ra is x for x in ast.walk(loop.iter if isinstance(loop, (ast.For, ast.AsyncFor)) else loop.test)) else st
+            rd = reaching_defs(ctx, f, name, at)
+            if not rd:
+                ctx.undecided("R13", "CURSOR", f, text, "no definition of the counted stream reaches the counting loop", ra)
+                continue
+            all_defs = [n for n in (v._def_node(s0) for s0, _v in assignments_to(v.fn, name)) if n is not None]
+            rebound = {p for p in v.params if assignments_to(v.fn, p)}
+            calls = [c for c in fn_calls(v.fn) if (cs := fv.stmt_of(c)) is not None and cfg.has(cs) and id(cs) not in inside
+                     and not any(id(x) in inside for x in fv.ancestors(c) if isinstance(x, ast.stmt))]
+            bad, unknown = [], []
+            for dst, val in rd:
+                dn = ENTRY if dst is v.fn else v._def_node(dst)
+                if dn is None:
+                    unknown.append("a definition of the stream that is not a statement of the control-flow graph")
+                    continue
+                t = ("param", name) if dst is v.fn else (v.term(val, dst) if val is not None else v._bound(dst, name, 0))
+                others = [n for n in all_defs if n != dn] + ([ENTRY] if name in v.params and dn != ENTRY else [])
+                # branch edges that are infeasible for this binding: tests of never-rebound parameters whose outcome is
+                # fixed on every path to the definition (named assumption: the dominating conditions of the definition)
+                assume = {}
+                if dst is not v.fn:
+                    for txt, pol, _n in dominating_conditions(ctx, f, dst):
+                        if txt in v.params and txt not in rebound:
+                            assume[txt] = pol
+                dead = []
+                if assume:
+                    for _nd, s0 in cfg.stmt.items():
+                        if isinstance(s0, (ast.If, ast.While)):
+                            tv = tv_eval(s0.test, assume)
+                            if tv is True:
+                                dead.append(cfg.edge_node(s0, "false"))
+                            elif tv is False:
+                                dead.append(cfg.edge_node(s0, "true"))
+                for a in (_unwith(x) for x in _alts(t)):
+                    # where is this object rewound / moved?
+                    resets, moves = [], []
+                    for c in calls:
+                        cn = cfg.node(fv.stmt_of(c))
+                        if _is_rewind(v, c, a):
+                            resets.append(cn)
+                            continue
+                        recv_hit = (isinstance(c.func, ast.Attribute) and c.func.attr not in _POSITION_NEUTRAL
+                                    and a in [_unwith(x) for x in _alts(v.term(c.func.value, c))])
+                        arg_hit = any(a in [_unwith(x) for x in _alts(v.term(x0, c))] for x0 in list(c.args) + [k.value for k in c.keywords]
+                                      if not isinstance(x0, ast.Starred))
+                        if (recv_hit or arg_hit) and not (a[0] == "call" and v.node.get(a[1]) is c):
+                            moves.append((cn, c))
+                    resets = [r for r in resets if not any(m == r for m, _c in moves)]
+                    origin = None  # None: positioned at 0 where it is bound; else (verdict, text)
+                    if a[0] == "param":
+                        origin = ("bad", f"parameter {a[1]}, whose position is wherever the caller left it")
+                    elif a[0] == "call":
+                        c0 = v.node[a[1]]
+                        d0 = dotted(c0.func) or ""
+                        cal = ctx.rs.resolve_call(f, c0)
+                        if d0 in _OPENERS and d0.split(".")[0] not in v.locals:
+                            origin = None
+                        elif cal.kind == "func" and cal.func is not None:
+                            origin = None if _returns_rewound(ctx, cal.func) else ("unknown", f"the result of {cal.func.fq}(), whose position is not known to be 0")
+                        else:
+                            origin = ("unknown", f"the result of {v.show(a)}, whose position is not followed")
+                    else:
+                        origin = ("unknown", f"{v.show(a)}: an object whose position is not followed")
+                    avoid = resets + others + dead
+
+                    def seg(x, y, av):
+                        return x == y or cfg.reaches(x, y, avoiding=av)
+
+                    if dn in dead or not seg(dn, site, others + dead):
+                        continue  # this binding never reaches the counting loop
+                    if origin is not None and dn not in resets and seg(dn, site, avoid):
+                        # the object as it was when it was bound arrives at the counting loop
+                        if origin[0] == "bad" and seg(ENTRY, dn, resets + dead):
+                            bad.append(f"the counted stream can be {origin[1]} (no rewind on the way to the counting loop)")
+                        elif origin[0] == "unknown":
+                            unknown.append(f"the counted stream can be {origin[1]}")
+                    for mn, c in moves:
+                        before = a[0] == "param" and mn != dn and seg(mn, dn, resets + dead) and dn not in resets and seg(dn, site, avoid)
+                        after = mn != dn and cfg.reaches(dn, mn, avoiding=others + dead) and seg(mn, site, avoid) and mn != site
+                        if before or after:
+                            bad.append(f"`{src(c)[:60]}` moves the stream ({v.show(a)}) and no rewind follows on a path to the counting loop")
+            bad = list(dict.fromkeys(bad))
+            if bad:
+                ctx.ob("R13", "CURSOR", f, text, False, "the byte statistic that orders the left-over keys is counted from wherever the stream happens to be, not from "
+                       "its start: " + "; ".join(bad[:3]) + " - which of two candidate blocks under different left-over keys comes first then depends on the "
+                       "amount of data in front of them", ra)
+            elif unknown:
+                ctx.undecided("R13", "CURSOR", f, text, "; ".join(dict.fromkeys(unknown)), ra)
+            else:
+                ctx.ob("R13", "CURSOR", f, text, True, "on every path to the counting loop the stream it reads was rewound (absolute seek(0) / constructed at "
+                       "position 0) after its last use", ra)
+    if n_sites:
+        ctx.rep.count("retry_statistic_read_sites", n_sites, floor=1)
+
+
+def r14(ctx):
+    """All-keys mode tries every left-over key: what is handed to the retry is the make_byte_list() result changed only
+    by operations that keep its elements (sorting, copying, reversing).  A selection that depends on the payload (keep
+    only the bytes the statistic saw), a truncation or an in-place removal drops keys that were asked for."""
+    text = "all-keys retry tries every left-over key"
+    f, v, retries, flows = _retry_context(ctx)
+    cfg, fv = v.cfg, v.fv
+    if not retries:
+        ctx.undecided("R14", "AGREE", f, text, "no recursive retry with the left-over keys located", f.node)
+        return
+    # names whose value derives from bytes read from a stream (forward closure from the statements that mention a read)
+    seed = set()
+    for st, w, _rd in flows:
+        own = [st.iter] if isinstance(st, (ast.For, ast.AsyncFor)) else [st]
+        if any(_reads_in(e, v.locals) for e in own):
+            seed |= w
+    tainted = _closure(flows, seed, backward=False) if seed else set()
+
+    def payload_names(e):
+        return sorted({n.id for n in ast.walk(e) if isinstance(n, ast.Name) and isinstance(n.ctx, ast.Load)} & tainted)
+
+    def classify(e, at, depth=0):
+        """-> ("full", None) the left-over list up to order | ("dropped", why) | ("unknown", why)"""
+        e = strip_cast(e)
+        if depth > 8:
+            return "unknown", "definition chain too deep"
+        if isinstance(e, ast.Name) and e.id in v.locals:
+            rd = reaching_defs(ctx, f, e.id, at)
+            if len(rd) != 1 or rd[0][0] is v.fn or rd[0][1] is None:
+                return "unknown", f"`{e.id}` has several definitions / is not bound by a plain assignment"
+            return classify(rd[0][1], rd[0][0], depth + 1)
+        if isinstance(e, ast.Call):
+            d = dotted(e.func)
+            if v.callee_fq(e) == FQ_BYTELIST:
+                return "full", None
+            if d in _ORDER_ONLY and d not in v.locals and e.args and not isinstance(e.args[0], ast.Starred):
+                return classify(e.args[0], at, depth + 1)
+            if isinstance(e.func, ast.Attribute) and e.func.attr == "copy" and not e.args:
+                return classify(e.func.value, at, depth + 1)
+            if d == "filter" and "filter" not in v.locals and len(e.args) == 2:
+                r = classify(e.args[1], at, depth + 1)
+                pn = payload_names(e.args[0])
+                if r[0] == "full" and pn:
+                    return "dropped", f"`{src(e)[:70]}` keeps only the left-over keys selected by payload-derived data ({', '.join(pn)})"
+                return "unknown", f"`{src(e)[:50]}` selects keys"
+            return "unknown", f"`{src(e)[:50]}`"
+        if isinstance(e, (ast.ListComp, ast.GeneratorExp, ast.SetComp)) and len(e.generators) == 1:
+            g = e.generators[0]
+            subs = [g.iter] + [n for t in g.ifs for n in ast.walk(t) if isinstance(n, ast.Name) and isinstance(n.ctx, ast.Load)]
+            about_left = [x for x in subs if isinstance(strip_cast(x), (ast.Name, ast.Call)) and classify(x, at, depth + 1)[0] == "full"]
+            identity = isinstance(g.target, ast.Name) and isinstance(strip_cast(e.elt), ast.Name) and strip_cast(e.elt).id == g.target.id
+            if identity and not g.ifs:
+                return classify(g.iter, at, depth + 1)
+            if about_left and identity:
+                # what selects: the iterable unless it is the left-over list itself, and every tainted name of the
+                # filter other than the left-over list and the comprehension variable (the *order* of the left-over
+                # list may depend on the payload; its elements do not)
+                left_ids = {id(x) for x in about_left}
+                sel = ([] if id(g.iter) in left_ids else [g.iter]) + [n for t in g.ifs for n in ast.walk(t) if isinstance(n, ast.Name)
+                                                                    and isinstance(n.ctx, ast.Load) and id(n) not in left_ids and n.id != g.target.id]
+                pn = sorted({n for x in sel for n in payload_names(x)})
+                if pn:
+                    return "dropped", (f"`{src(e)[:80]}` keeps only the left-over keys that payload-derived data ({', '.join(pn)}) selects: a key the "
+                                       "statistic did not see is never tried")
+                return "unknown", f"`{src(e)[:60]}` selects keys by a test that does not depend on the payload"
+            return "unknown", f"`{src(e)[:60]}`"
+        if isinstance(e, ast.Subscript) and isinstance(e.slice, ast.Slice):
+            r = classify(e.value, at, depth + 1)
+            sl = e.slice
+            if r[0] != "full":
+                return r
+            if sl.lower is None and sl.upper is None and sl.step is None:
+                return r
+            if sl.step is None and sl.lower is None and sl.upper is not None:
+                t = v.term(sl.upper, at)
+                if t[0] == "global":
+                    t = v._global_const(t[1]) or t
+                # with the default keys 256 - len(defaults) keys are left over (reference table); a constant bound below
+                # that keeps fewer
+                if t[0] == "const" and t[1] == "int" and 0 <= t[2] < 256 - len(REF_DEFAULT_KEYS):
+                    return "dropped", f"`{src(e)[:60]}` keeps at most {t[2]} of the {256 - len(REF_DEFAULT_KEYS)} keys that are left over with the default keys"
+            return "unknown", f"`{src(e)[:60]}` takes a part of the left-over keys"
+        return "unknown", f"`{src(e)[:50]}`"
+
+    for call, rst, keys_e in retries:
+        if keys_e is None:
+            ctx.undecided("R14", "AGREE", f, text, "the retry has no key argument", call)
+            continue
+        verdict, why = classify(keys_e, call)
+        # in-place removals from the list that is handed on
+        drops = []
+        if isinstance(strip_cast(keys_e), ast.Name):
+            kname = strip_cast(keys_e).id
+            rn = cfg.node(rst)
+            for n in body_walk(v.fn):
+                st = fv.stmt_of(n)
+                if st is None or not cfg.has(st) or not cfg.reaches(cfg.node(st), rn):
+                    continue
+                hit = None
+                if isinstance(n, ast.Call) and isinstance(n.func, ast.Attribute) and n.func.attr in _DROPPERS and _root_name(n.func.value) == kname:
+                    hit = n
+                elif isinstance(n, ast.Delete) and any(isinstance(t, ast.Subscript) and _root_name(t) == kname for t in n.targets):
+                    hit = n
+                if hit is not None and v.term(ast.Name(id=kname, ctx=ast.Load()), st) == v.term(keys_e, call):
+                    drops.append(hit)
+        if verdict == "dropped":
+            ctx.ob("R14", "AGREE", f, text, False, why + " - with all keys requested a block under such a key is not found (ValueError) although its key was asked for", call)
+        elif drops:
+            ctx.undecided("R14", "AGREE", f, text, "keys are removed in place from the list that is retried (" + ", ".join(f"`{src(d)[:40]}`" for d in drops[:3]) +
+                          "): whether a key that was asked for is lost is not followed", call)
+        elif verdict == "full":
+            ctx.ob("R14", "AGREE", f, text, True, "the retried list is the make_byte_list() result, changed only by operations that keep its elements "
+                   "(sort / sorted / copy / reversed)", call)
+        else:
+            ctx.undecided("R14", "AGREE", f, text, "how the retried key list derives from the left-over keys is not followed: " + why, call)
+
+
+# ============================================================================ R15: hits in file order
+def r15(ctx):
+    """`the first [candidate] in ... file order is chosen`: from_file takes the first block find_beacon_config_bytes
+    yields, and that generator yields in the order of the scanner - so within one key the scanner must report its hits
+    in ascending offset order.  Decided for the hits of one read round (the hits reported between two reads of the file):
+    (a) each yield site reports `<terms fixed during its search loop> + <match index>` where the match index is advanced
+    by `<buffer>.find(needle, <index> + k)`, k >= 1 (lemma L1: str/bytes.find(sub, start) returns -1 or an index >=
+    start, so the non-negative results of such a progression increase strictly; `rfind` towards smaller indices ->
+    descending -> violated); (b) two yield sites that can both report in one round, the second after the first: with
+    offset = <position before the read> + R, the order holds if R_first < 0 <= R_second and is broken if
+    R_second < 0 <= R_first, where `R >= 0` is justified by `R is a find() result that was tested against -1` (lemma
+    L2: find returns -1 or a non-negative index) and `R < 0` by a dominating comparison `A < B` with A - B == R in
+    polynomial normal form; any other form -> undecided.  That hits of a later round lie behind those of an earlier
+    one follows from the carry-over obligations (R8) and is not decided again here."""
+    from csverif.absint import SymPoly, sympoly
+    from csverif.q import inline
+
+    text = "hits of one read round are reported in ascending file order"
+    f = ctx.repo.func(FQ_SCANNER)
+    v = _Val(ctx, f)
+    cfg, fv = v.cfg, v.fv
+    if len(v.params) < 2:
+        ctx.undecided("R15", "LOOP", f, text, "iter_find_needle no longer takes (file, needle, ..)", f.node)
+        return
+    fp_t, needle = ("param", v.params[0]), v.params[1]
+    reads = [c for c in fn_calls(f.node) if _receiver_is(v, c, fp_t, "read")]
+    ys = [y for y in body_walk(f.node) if isinstance(y, ast.Yield) and y.value is not None and fv.enclosing(y, (ast.Lambda,)) is None]
+    rst = fv.stmt_of(reads[0]) if len(reads) == 1 else None
+    if rst is None or not cfg.has(rst) or not ys or fv.enclosing(rst, (ast.For, ast.While)) is None:
+        ctx.undecided("R15", "LOOP", f, text, "the scanner is not one loop around a single read() of the file with yields in it", f.node)
+        return
+    rn = cfg.node(rst)
+    posvars = [st.targets[0].id for st in statements(f.node) if isinstance(st, ast.Assign) and len(st.targets) == 1 and isinstance(st.targets[0], ast.Name)
+               and isinstance(st.value, ast.Call) and _receiver_is(v, st.value, fp_t, "tell")]
+    stop = frozenset(posvars)
+
+    def poly(e):
+        try:
+            return sympoly(inline(f.node, e, stop=stop))
+        except Exception:
+            return None
+
+    def find_defs(name):
+        """definitions of a match-index local: ("init", const) | ("find"|"rfind", call) | ("other", node)"""
+        out = []
+        for st, val in assignments_to(f.node, name):
+            val = strip_cast(val) if val is not None else None
+            if isinstance(val, ast.Call) and isinstance(val.func, ast.Attribute) and val.func.attr in ("find", "rfind", "index", "rindex") and val.args \
+                    and v.term(val.args[0], st) == ("param", needle):
+                out.append((val.func.attr, val, st))
+            elif val is not None and v.term(val, st)[0] == "const":
+                out.append(("init", val, st))
+            else:
+                out.append(("other", val, st))
+        return out
+
+    sites = []
+    for y in ys:
+        yn = v.stmt_node(y)
+        P = poly(y.value)
+        if yn is None or P is None:
+            ctx.undecided("R15", "LOOP", f, text, f"reported offset `{src(y.value)[:50]}` is not a polynomial in the scanner's locals", y)
+            return
+        idx = [a for a in P.atoms() if a in v.locals and any(k in ("find", "rfind", "index", "rindex") for k, _c, _s in find_defs(a))]
+        if len(idx) != 1:
+            ctx.undecided("R15", "LOOP", f, text, f"reported offset `{src(y.value)[:50]}` does not contain exactly one match index (result of <buffer>.find(needle, ..))", y)
+            return
+        ix = idx[0]
+        coeff = P - SymPoly.atom(ix)
+        if ix in coeff.atoms():
+            ctx.undecided("R15", "LOOP", f, text, f"reported offset is not <fixed terms> + <match index>: {P!r}", y)
+            return
+        inner = fv.enclosing(y, (ast.For, ast.While))
+        defs = find_defs(ix)
+        kinds = {k for k, _c, _s in defs}
+        # (a) the progression of the match index inside the search loop
+        adv = [(k, c, st) for k, c, st in defs if inner is not None and any(st is x for x in ast.walk(inner))]
+        verdict, why = None, ""
+        if not adv or inner is None or any(k in ("init", "other") for k, _c, _s in adv):
+            verdict, why = None, "the match index is not advanced by find() calls (only) inside one search loop"
+        else:
+            changed = _mutated_names(inner) - {ix}
+            moving = sorted(a for a in coeff.atoms() if set(re.findall(r"[A-Za-z_]\w*", a)) & changed)
+            for k, c, st in adv:
+                start = c.args[1] if len(c.args) > 1 else None
+                sp = poly(start) if start is not None else None
+                step = (sp - SymPoly.atom(ix)).const_value() if sp is not None else None
+                if k in ("find", "index") and step is not None and step >= 1 and len(c.args) == 2 and not moving:
+                    verdict = True if verdict is None else verdict
+                    why = "the match index only advances (find(needle, <index> + k), k >= 1) and the other terms are fixed during the search loop"
+                elif k in ("rfind", "rindex") and len(c.args) >= 3 and poly(c.args[2]) is not None and ix in poly(c.args[2]).atoms() and not moving:
+                    verdict, why = False, "the buffer is searched backwards (rfind with the previous match as end bound): the hits of one read are reported in descending order"
+                    break
+                else:
+                    verdict, why = None, f"progression `{src(c)[:50]}` of the match index is not of a form this rule orders"
+                    break
+        if verdict is None:
+            ctx.undecided("R15", "LOOP", f, text, why, y)
+        else:
+            ctx.ob("R15", "LOOP", f, text, verdict, why, y)
+        # sign facts for R = offset - <position before the read>
+        R = None
+        if len(posvars) == 1 and posvars[0] in P.atoms():
+            R = P - SymPoly.atom(posvars[0])
+        sign = None
+        if R is not None:
+            conds = dominating_conditions(ctx, f, y)
+            here = {id(st0) for st0, _v in reaching_defs(ctx, f, ix, y)}
+            rk = {k for k, _c, st0 in defs if id(st0) in here}
+            if R == SymPoly.atom(ix) and rk and rk <= {"find", "index", "rfind", "rindex"} and len(here) == len([1 for _k, _c, st0 in defs if id(st0) in here]):
+                # lemma L2: find()/rfind() return -1 or an index >= 0 (index()/rindex() never return -1); the value
+                # reported is the result of such a call (reaching definitions at the yield)
+                if rk <= {"index", "rindex"}:
+                    sign = ">=0"
+                for txt, pol, tn in conds:
+                    for l, op, r in compare_parts(tn) if isinstance(tn, ast.Compare) else ():
+                        pl, pr = poly(l), poly(r)
+                        if pl == SymPoly.atom(ix) and pr is not None and pr.const_value() is not None:
+                            cv = pr.const_value()
+                            if (isinstance(op, ast.Eq) and cv == -1 and pol is False) or (isinstance(op, ast.NotEq) and cv == -1 and pol is True) \
+                                    or (isinstance(op, ast.GtE) and cv == 0 and pol is True) or (isinstance(op, ast.Lt) and cv == 0 and pol is False) \
+                                    or (isinstance(op, ast.Gt) and cv == -1 and pol is True):
+                                sign = ">=0"
+            if sign is None:
+                for txt, pol, tn in conds:
+                    for l, op, r in compare_parts(tn) if isinstance(tn, ast.Compare) else ():
+                        pl, pr = poly(l), poly(r)
+                        if pl is None or pr is None:
+                            continue
+                        if pl - pr == R and ((isinstance(op, ast.Lt) and pol is True) or (isinstance(op, ast.GtE) and pol is False)):
+                            sign = "<0"
+                        elif pl - pr == R and ((isinstance(op, ast.GtE) and pol is True) or (isinstance(op, ast.Lt) and pol is False)):
+                            sign = ">=0"
+        sites.append((y, yn, sign))
+    # (b) two sites that report in the same round
+    posdefs = [cfg.node(st) for st, _v in assignments_to(f.node, posvars[0]) if cfg.has(st)] if len(posvars) == 1 else []
+    for i, (ya, na, sa) in enumerate(sites):
+        for j, (yb, nb, sb) in enumerate(sites):
+            if i == j or na == nb or not cfg.reaches(na, nb, avoiding=[rn] + posdefs):
+                continue
+            t2 = "hits of one read round are reported in ascending file order (two reporting sites)"
+            if cfg.reaches(nb, na, avoiding=[rn] + posdefs):
+                if i < j:
+                    ctx.undecided("R15", "LOOP", f, t2, "two yield sites alternate within one read round: their relative order is not followed", yb)
+                continue
+            if sa == "<0" and sb == ">=0":
+                ctx.ob("R15", "LOOP", f, t2, True, "the site that reports first in a round reports offsets before the position of the read, the later site offsets at or behind it", yb)
+            elif sa == ">=0" and sb == "<0":
+                ctx.ob("R15", "LOOP", f, t2, False, f"within one read round `yield {src(ya.value)[:40]}` reports all its hits (offsets at or behind the position before the "
+                       f"read) before `yield {src(yb.value)[:40]}` reports hits that lie in front of that position: a hit that straddles the read boundary comes "
+                       "after later hits, so with two candidate blocks under one key the later one in the file is returned", yb)
+            else:
+                ctx.undecided("R15", "LOOP", f, t2, "two yield sites report in the same read round; the order of their offsets could not be established "
+                              f"(first site: offset - position {sa or 'unknown'}, second: {sb or 'unknown'})", yb)
 
 
 # ============================================================================ R8
